@@ -599,6 +599,10 @@ cdef class _ProdElement(_BaseElement):
         if type(right) is _ProdElement:
             self = right
             factor = left
+        # The factor is absorbed before the transformations are applied: when
+        # they conjugate the product, the conjugate must be absorbed.
+        if self._conj:
+            factor = conj(factor)
         return _ProdElement(self._left, self._right * factor,
                             self._transform.copy(), self._conj)
 
